@@ -151,13 +151,51 @@ def relabel_then_edit_variants(key, data, tree0):
     return out
 
 
+def many_children_part(ck):
+    """Clones and the virtual root with 6-9 children (more than any forest on 5 points has): Density.tla gives the
+    feature records of exactly these forests (Starts), GridRec.tla their exact root vectors."""
+    from phyclone.tree import FSCRPDistribution, TreeJointDistribution
+    G, n = 4, 10
+    rs = np.random.RandomState(41 + ck.seed)
+    tab = rs.randint(1, 6, size=(n, 1, G))
+    shapes = [[[i] for i in range(k)] for k in (6, 7, 9)] + [[list(range(k + 1))] + [[i] for i in range(1, k + 1)] for k in (6, 7)]
+    tla_shapes = ", ".join("{%s}" % ", ".join("{%s}" % ", ".join(map(str, c)) for c in f) for f in shapes)
+    mcd = "---- MODULE MC_DensityMany ----\nEXTENDS Density\nStartsDef == {[f |-> F, o |-> {}] : F \\in {%s}}\n====\n" % tla_shapes
+    r = tlc.run_tlc("c03_density_many", "MC_DensityMany", tlc.cfg_text(constants={"N": n, "OutliersOn": "TRUE", "Dump": "TRUE", "Starts": "<- StartsDef"}, invariants=["FeatConsistent", "Emit"]),
+                    mc_text=mcd, timeout=900)
+    tlc.require_ok(r, "Density (many children)")
+    ck.add_tlc("Density.tla feature records of %d forests with 6-9 children per node" % len(shapes), r)
+    feats = {absstate.canon(x["st"]): x["feat"] for x in r.json_prints}
+    mcz = ("---- MODULE MC_ManyZ ----\nEXTENDS GridRec, Json\nLDef == %s\nShapes == {%s}\n"
+           "ASSUME \\A F \\in Shapes : PrintT(ToJson([f |-> F, Z |-> ZRecT(F, LDef, 1, %d)]))\n"
+           "VARIABLE x\nInit == x = 0\nNext == UNCHANGED x\n====\n") % (gridoracle.tla_tab(tab), tla_shapes, G)
+    rz = tlc.run_tlc("c03_many_z", "MC_ManyZ", tlc.cfg_text(), mc_text=mcz, workers=1, timeout=900)
+    tlc.require_ok(rz, "GridRec (many children)")
+    ck.add_tlc("GridRec.tla exact root vectors of the same forests", rz)
+    zs = {absstate.canon({"f": x["f"], "o": []}): x["Z"] for x in rz.json_prints}
+    data = gridoracle.data_from_tables(tab)
+    for key, feat in feats.items():
+        sub = [dp for dp in data if dp.idx in absstate.data_ids(key)]
+        tree = absstate.build(key, sub)
+        for alpha in (0.3, 2.5):
+            dist = TreeJointDistribution(FSCRPDistribution(alpha))
+            for form, got in (("marg", float(dist.log_p(tree))), ("one", float(dist.log_p_one(tree)))):
+                want = expected(feat, alpha, 0.0, {d: 1 for d in range(n)}, [zs[key]], {}, G, 1, form)
+                ck.evaluations += 1
+                if not math.isfinite(got) or abs(got - want) > 1e-9 * (1 + abs(want)):
+                    ck.violation("C03|many_children|%s" % ("log_p" if form == "marg" else "log_p_one"), "%s = %.12g, FS-CRP model value %.12g for %s (alpha %s)" % (
+                        "log_p" if form == "marg" else "log_p_one", got, want, absstate.key_str(key), alpha), {"state": absstate.to_json(key), "alpha": alpha})
+        ck.nontrivial("many_children:" + absstate.key_str(key))
+        ck.traces_validated += 1
+
+
 def light_pass(ck, n):
     """One more data point with a single setting (alpha 2.5, outlier prior 0.2, unit cluster sizes), two constructions per forest:
     covers shapes the full pass does not reach (e.g. two top-level clones beside a clone with two children)."""
     from phyclone.tree import FSCRPDistribution, TreeJointDistribution
     from phyclone.smc.swarm import TreeHolder
     G, D = 3, 1
-    cfg = tlc.cfg_text(constants={"N": n, "OutliersOn": "TRUE", "Dump": "TRUE"}, invariants=["FeatConsistent", "Emit"])
+    cfg = tlc.cfg_text(constants={"N": n, "OutliersOn": "TRUE", "Dump": "TRUE", "Starts": "{}"}, invariants=["FeatConsistent", "Emit"])
     r = tlc.run_tlc("c03_density_light", "Density", cfg, timeout=3000)
     tlc.require_ok(r, "Density light")
     ck.add_tlc("Density N=%d (light pass)" % n, r)
@@ -210,7 +248,8 @@ def run(corrupt=None):
     n = 4 if thorough else 3
     G, D = 4, 2
     light_pass(ck, 5)
-    cfg = tlc.cfg_text(constants={"N": n, "OutliersOn": "TRUE", "Dump": "TRUE"}, invariants=["FeatConsistent", "Emit"])
+    many_children_part(ck)
+    cfg = tlc.cfg_text(constants={"N": n, "OutliersOn": "TRUE", "Dump": "TRUE", "Starts": "{}"}, invariants=["FeatConsistent", "Emit"])
     r = tlc.run_tlc("c03_density", "Density", cfg, timeout=1500)
     tlc.require_ok(r, "Density")
     ck.add_tlc("Density N=%d feature records of every forest (outliers any subset)" % n, r)
@@ -236,8 +275,8 @@ def run(corrupt=None):
             data = [DataPoint(dp.idx, np.ascontiguousarray(dp.value + np.array(offs)[:, None]), name=dp.name, outlier_prob=dp.outlier_prob, outlier_prob_not=dp.outlier_prob_not)
                     for dp in data]
         for key in complete + (partial if (thorough or (p_out == 0.2 and offs is None)) else []):
-            if key[1] and p_out == 0.0:
-                continue  # without outlier modelling no run holds outliers
+            # (trees holding outliers although the data points carry no outlier prior - the prior terms are then absent,
+            # the outliers' stand-alone marginals are not - are reachable through the library and judged as well)
             feat = feats[key]
             cons = constructions(key, data, rs)
             zrow = oracle[key]["Z"] if key[0] else None
